@@ -13,7 +13,10 @@ Python side:
                      the model is fed the observed per-format outcomes and must predict what `auto` does; the
                      independent oracle compares the automatic result with explicit-format loading;
  * junk stream     — non-structure texts: `auto` must fail with StructureFormatError listing every parser's
-                     complaint (or succeed with a format whose parser accepts), never a foreign exception.
+                     complaint (or succeed with a format whose parser accepts), never a foreign exception;
+ * cross stream    — text of every real writer g given to the real parser f != g and to the Lean model parser f
+                     (DS.Formats, `fmt.<f>.parse`): outcome classes compared (a disagreement is listed, never a verdict);
+                     on random ordinary structures a parser f that accepts foreign text while auto differs from g fails.
 """
 import contextlib
 import io
@@ -1061,6 +1064,175 @@ def reuse_stream(ck, cases, tmp):
                                 "expected": "the same detected format and structure as a new getParser('auto') gives for that source"})
 
 
+# ---- cross-format stream: model parser f against the real parser f on text of the real writer g != f ----
+
+CROSS_PARSERS = ["xyz", "rawxyz", "discus", "pdffit", "pdb", "xcfg"]      # the CIF model reads CIF-writer text only
+EDGE_ELEMENTS = ["ATOM", "TITLE", "END", "REMARK", "1", "4", "#x", "#", "title", "cell", "atoms", "format", "Number", "dcell", "generator"]
+EDGE_TITLES = ["", "3", "1", "format pdffit", "atoms", "cell 1 1 1", "cell 3 4 5 90 90 90", "cell", "dcell 1", "C 0 0 0", "1 2 3",
+               "Number of particles = 3", "# c", "loop_", "_cell_length_a 3", "TITLE", "data_x",
+               # cell records that Lattice refuses (zero volume, overflow) / whose numbers only Python's float() reads
+               "cell 1 1 0", "cell 1 1 1 90 90 180", "cell 1 1 1 120 120 120", "cell 1e400 1 1", "cell nan 1 1", "cell 1 1 1 90 90 nan", "cell 1_1 1 1"]
+CROSS_CHARS = frozenset(map(chr, range(32, 127))) | {"\n", "\t"}            # where str.split()/strip() and the model's isWs agree
+
+
+def _enc(t):
+    return "-" if t == "" else ",".join(str(ord(c)) for c in t)
+
+
+def _dec(w):
+    return "" if w == "-" else "".join(chr(int(x)) for x in w.split(","))
+
+
+def edge_structures():
+    """fixed structures whose title / element names are keywords or records of some format -> [(label, structure)]"""
+    from diffpy.structure import Atom, Lattice, PDFFitStructure, Structure
+
+    def mk(label, title="edge", els=("C", "O", "Fe"), cell=(3.0, 4.0, 5.0, 90, 90, 90), cls=Structure):
+        s = cls(lattice=Lattice(*cell), title=title)
+        for i, e in enumerate(els):
+            s.append(Atom(e, [0.1 * (i + 1), 0.25, 0.5 - 0.125 * i]))
+        return label, s
+
+    out = [mk("one-atom", els=("C",))]
+    for e in EDGE_ELEMENTS:
+        out.append(mk("element:" + e, els=(e,) * (int(e) if e.isdigit() else 2)))
+        out.append(mk("element-second:" + e, els=("C", e)))
+    for t in EDGE_TITLES:
+        out.append(mk("title:" + t, title=t, els=("C",) if t == "1" else ("C", "O", "Fe")))
+    out.append(mk("unit-cell", cell=(1, 1, 1, 90, 90, 90)))
+    out.append(mk("triclinic", cell=(3.1, 4.2, 5.3, 81.0, 95.5, 107.25)))
+    label, s = mk("pdffit-structure", cls=PDFFitStructure)
+    s.pdffit["scale"], s.pdffit["delta2"] = 1.25, 0.5
+    return out + [(label, s)]
+
+
+def cross_model_atoms(f, out):
+    """(number of atoms, element list) of an `ok …` line of the driver (wire layout: the show* functions of Formats.lean);
+    (None, None) when the line cannot be decoded"""
+    try:
+        it = iter(out.split()[1:])
+        skip = lambda k: [next(it) for _ in range(k)]  # noqa: E731
+        skip({"xyz": 1, "rawxyz": 0, "discus": 10, "pdffit": 21, "pdb": 1, "xcfg": 11}[f])
+        if f == "pdb" and next(it) == "some":
+            skip(6)
+        n, els = int(next(it)), []
+        for _ in range(n):
+            if f == "pdb":
+                skip(1)
+            els.append(_dec(next(it)))
+            skip({"xyz": 3, "rawxyz": 3, "discus": 4, "pdffit": 20, "pdb": 5, "xcfg": 3}[f])
+            if f in ("pdb", "xcfg") and next(it) == "some":
+                skip(6 if f == "pdb" else 3)
+            if f == "xcfg":
+                skip(2 * int(next(it)))
+        return (n, els) if next(it, None) is None else (None, None)
+    except (StopIteration, ValueError, KeyError):
+        return None, None
+
+
+def cross_violation(g, f, text):
+    """None when the real parser f rejects the text written by g, else (detected format or exception kind, what | None):
+    `what` tells how automatic detection fails to load the text like format g named explicitly"""
+    if explicit(f, "str", text, None)[0] != "ok":
+        return None
+    eg, au = explicit(g, "str", text, None), run_auto("parser.parse", text, None)
+    if au[0] != "ok":
+        return au[1], "automatic detection fails with %s: %s" % (au[1], au[2][:200])
+    if eg[0] == "ok" and close_sig(sig(au[2]), sig(eg[1]), 1e-4):
+        return au[1], None
+    return au[1], "automatic detection (format %r) gives a structure different from loading as %r (%s)" % (
+        au[1], g, "%d vs %d atoms" % (len(au[2]), len(eg[1])) if eg[0] == "ok" else "which fails: %r" % (eg[1:],))
+
+
+def cross_stream(ck, cases):
+    import random
+
+    from diffpy.structure.parsers import outputFormats
+
+    rng = random.Random(ck.seed * 1000003 + 0xC12)      # own generator: ck.rng belongs to the other streams
+    writers = list(outputFormats())
+    items = [("edge:" + lb, s) for lb, s in edge_structures()]
+    items += [("random", random_structure(rng, k)) for k in range(40 if ck.tier == "quick" else 300)]
+    for k in range(40 if ck.tier == "quick" else 300):    # random structures renamed with keyword titles / element names
+        s = random_structure(rng, k)
+        if rng.random() < 0.6:
+            s.title = rng.choice(EDGE_TITLES)
+        for a in s:
+            if rng.random() < 0.5:
+                a.element = rng.choice(EDGE_ELEMENTS)
+        items.append(("edge:mixed", s))
+    texts, refused = [], 0                                # (origin, title, elements, written format, text)
+    for origin, s in items:
+        for g in writers:
+            with quiet():
+                try:
+                    texts.append((origin, s.title, [a.element for a in s], g, s.writeStr(g)))
+                except Exception:  # noqa: BLE001
+                    refused += 1
+    seen = set()
+    for c in cases:                                       # the texts of the written stream as well
+        if c["stream"] == "written" and (c["written"], c["text"]) not in seen:
+            seen.add((c["written"], c["text"]))
+            texts.append(("random", c["title"], [a[0] for a in c["stru"]["atoms"]], c["written"], c["text"]))
+    jobs, skipped = [], 0
+    for tx in texts:
+        fs = [f for f in CROSS_PARSERS if f != tx[3]]
+        if set(tx[4]) <= CROSS_CHARS:
+            jobs += [(tx, f) for f in fs]
+        else:
+            skipped += len(fs)
+    out = common.driver(["fmt.%s.parse %s" % (f, " ".join(_enc(l) for l in to_lines(tx[4]))) for tx, f in jobs])
+    cells, dis, disn, foreign, agree, unmodelled, unm = {}, [], {}, [], 0, 0, set()
+    for ((origin, title, els, g, text), f), o in zip(jobs, out):
+        real = explicit(f, "str", text, None)
+        cell = cells.setdefault("%s->%s" % (g, f), {"reject": 0, "accept": 0})
+        cell["accept" if real[0] == "ok" else "reject"] += 1
+        mword = o.split(" ", 1)[0]
+        rword = "ok" if real[0] == "ok" else ("returns-None" if real[0] == "none" else real[1])
+        if rword not in ("ok", "StructureFormatError", "NotImplementedError"):
+            rword = "foreign:" + rword
+        if mword == "unmodelled":
+            unmodelled += 1
+            unm.add((g, f, origin, title, ",".join(sorted(set(els) - set(ELEMENTS))), rword))
+        elif mword == rword == "ok":
+            n, mels = cross_model_atoms(f, o)
+            if n == len(real[1]) and (mels is None or mels == [a.element for a in real[1]]):
+                agree += 1
+            else:
+                rword = "ok: %d atoms %r" % (len(real[1]), [a.element for a in real[1]][:6])
+        elif mword == rword:
+            agree += 1
+        if mword != "unmodelled" and mword != rword:
+            disn["%s->%s" % (g, f)] = disn.get("%s->%s" % (g, f), 0) + 1
+            dis.append({"g": g, "f": f, "real": rword + (": " + real[2][:160] if real[0] == "err" else ""), "model": o[:160], "origin": origin,
+                        "title": title, "elements": els, "text": text})
+        if real[0] == "ok":                                # the property itself, on the real code
+            au, bad = cross_violation(g, f, text) or (None, None)
+            if bad and origin == "random" and title not in ODD_TITLES:
+                ck.fail("cross:%s:%s" % (g, f), "the %s parser accepts text written by the %s writer (title %r, elements %r) and %s" % (f, g, title, els, bad),
+                        {"kind": "cross", "written": g, "parser": f, "text": text, "title": title, "elements": els})
+            else:
+                foreign.append({"g": g, "f": f, "title": title, "elements": els, "origin": origin, "auto": au, "agrees": not bad})
+    n = len(jobs)
+    ck.coverage["evaluations"] += n
+    ck.coverage["traces_validated_against_impl"] += n
+    dis.sort(key=lambda d: len(d["text"]))
+    ck.coverage["cross_matrix"] = {
+        "evaluations": n, "agree": agree, "skipped_non_ascii": skipped, "model_unmodelled": unmodelled, "model_unmodelled_cases": [list(u) for u in sorted(unm)[:12]], "structures": len(items), "texts": len(texts),
+        "writer_refused": refused, "cells": dict(sorted(cells.items())), "model_real_disagreement_count": dict(sorted(disn.items())),
+        "model_real_disagreements": dis[:10], "real_accepts_foreign_text_count": len(foreign), "real_accepts_foreign_text": foreign[:80]}
+    if disn:
+        ck.notes.append("cross stream: the model parser and the real parser differ in outcome class on text of another writer (written->parser: cases; "
+                        "examples under coverage.cross_matrix; not a verdict): %r" % dict(sorted(disn.items())))
+    causes = sorted({(d["g"], d["f"], d["origin"][5:] if d["origin"].startswith("edge:") else ("odd title %r" % d["title"] if d["title"] in ODD_TITLES
+                                                                                                 else "ordinary structure"), str(d["auto"]), d["agrees"])
+                     for d in foreign})
+    if causes:
+        ck.notes.append("cross stream: text of one writer accepted by another format's parser, outside the keyword-free range (edge structures and odd "
+                        "titles; nothing demanded): (written, accepting parser, cause, what auto gives, auto agrees with the written format) %r" % causes)
+    return dis
+
+
 def replay_dict(c, path, matrix, got, model):
     return {"kind": c["stream"], "entry": c["entry"], "written_format": c.get("written"), "hint": c.get("hint"), "ext": c.get("ext"),
             "text": c["text"], "bytes_hex": c["bytes"].hex() if c.get("bytes") is not None else None, "structure": c.get("stru"), "junkkind": c.get("junkkind"), "odd_title": c.get("odd_title"), "title": c.get("title"), "special_title": c.get("special_title"),
@@ -1114,6 +1286,12 @@ def run(ck):
 
     rep = registry.main(GEN, os.path.join(GEN, "registry_report.json"))
     ok, info = ck.lean_obligations("DS.Props.C12")
+    # the written-format x parser matrix proved on the models of DS.Model.Formats (30 foreign-text rejections, 6 rows, assembly)
+    ok_m, info_m = ck.lean_obligations("DS.Props.C12Matrix")
+    if not ok_m:
+        ok = False
+        info = {**info, "failed_modules": list(info.get("failed_modules") or []) + list(info_m.get("failed_modules") or ["DS.Props.C12Matrix"]),
+                "errors": list(info.get("errors") or []) + list(info_m.get("errors") or []), "log_tail": info_m.get("log_tail", "")}
     # `orderFor`, `auto` and the entry points ARE the current source of p_auto.py (transliterated by translate/src_load.py)
     tie_ok, tie_info = tie_scope(*ck.source_tie("DS.Props.SrcLoad", groups=("load",)), TIE_C12)
     ck.widen = 1 if tie_ok else 4      # a broken tie: four times as many order / fnmatch / scripted-registry cases
@@ -1143,6 +1321,7 @@ def run(ck):
         res = evaluate_cases(ck, cases, formats, header, newfile)
         reuse_stream(ck, cases, tmp)
         names_stream(ck, cases, tmp)
+        cross_stream(ck, cases)
         hist = {}
         for c, path, matrix, got, model, fails in res:
             ck.coverage["evaluations"] += 1
@@ -1241,8 +1420,12 @@ def run(ck):
                                     "harness/c12.py probe: fake parsers registered in the in-process parser_index (restored afterwards)"]
     ck.assumptions += [
         "the per-format parsers are a parameter of the model (their behaviour on each text is observed, not modelled: C13)",
-        "written_text_detected is proved from the matrix hypothesis RejectOrAgree (every candidate rejects with a swallowed exception or "
-        "agrees); the hypothesis itself is evaluated on the real writers/parsers for the generated structures, not proved",
+        "written_text_detected: DS.Props.C12Matrix.written_text_detected_models proves the matrix hypothesis on the MODELS of the writers and "
+        "readers of xyz, rawxyz, discus, pdffit, pdb, xcfg (all 30 foreign-text entries are rejections; line level parseLines(toLines(s))), "
+        "under the round-trip ranges plus kwFree (no title word / element `cell`, `dcell`) and rawPdbFree (first raw XYZ element is not a PDB "
+        "record name) - each a real counter-example of the clause; the cif column is the hypothesis CifRejects and the cif row is not modelled: "
+        "these 13 entries are evaluated on the real writers/parsers for the generated structures only (matrix_RejectOrAgree); the model readers "
+        "are validated against the real readers on foreign text by the cross_matrix stream",
         "fnmatch is modelled for patterns of literals, '*' and '?' (the registry uses no character class; the translator refuses one); "
         "os.path.normcase is the identity (POSIX)",
         "non UTF-8 files (binary, Latin-1, UTF-16, cut multi-byte sequence) are part of the junk file stream: every file entry point must "
@@ -1269,6 +1452,11 @@ def replay(path):
         finally:
             shutil.rmtree(tmp, ignore_errors=True)
         print(bad[1] if bad else "the file %r loads like its text" % (r["stem"] + r["ext"]))
+        return 1 if bad else 0
+    if kind == "cross":
+        au, bad = cross_violation(r["written"], r["parser"], r["text"]) or (None, None)
+        print("text written as %r (title %r, elements %r): %s" % (r["written"], r.get("title"), r.get("elements"), ("FAILS the %s parser accepts it and %s" % (
+            r["parser"], bad)) if bad else "the %s parser %s" % (r["parser"], "rejects it" if au is None else "accepts it; auto (%r) agrees with %r" % (au, r["written"]))))
         return 1 if bad else 0
     if kind == "order":
         from diffpy.structure.parsers.p_auto import P_auto
